@@ -27,6 +27,7 @@ import (
 	"fmt"
 	"strconv"
 	"strings"
+	"sync"
 
 	"github.com/btcsuite/btcd/btcec"
 	"github.com/btcsuite/btcutil/base58"
@@ -62,6 +63,7 @@ var kmsAsymmetric = map[string]bool{"ed25519": true, "p256der": true, "p256": tr
 
 // recKMSStore: the spi/kms.Store given to localkms: records every Put, can freeze.
 type recKMSStore struct {
+	mu       sync.Mutex
 	data     map[string][]byte
 	puts     [][2]string // (id, value)
 	mutCalls int
@@ -72,6 +74,8 @@ type recKMSStore struct {
 var errFrozen = errors.New("store frozen (simulated crash)")
 
 func (s *recKMSStore) Put(id string, v []byte) error {
+	s.mu.Lock()
+	defer s.mu.Unlock()
 	n := s.mutCalls
 	s.mutCalls++
 	if s.freezeAt >= 0 && n >= s.freezeAt {
@@ -83,6 +87,8 @@ func (s *recKMSStore) Put(id string, v []byte) error {
 }
 
 func (s *recKMSStore) Get(id string) ([]byte, error) {
+	s.mu.Lock()
+	defer s.mu.Unlock()
 	if s.failNextGet {
 		s.failNextGet = false
 		return nil, errors.New("transient read fault")
@@ -95,6 +101,8 @@ func (s *recKMSStore) Get(id string) ([]byte, error) {
 }
 
 func (s *recKMSStore) Delete(id string) error {
+	s.mu.Lock()
+	defer s.mu.Unlock()
 	n := s.mutCalls
 	s.mutCalls++
 	if s.freezeAt >= 0 && n >= s.freezeAt {
@@ -273,8 +281,25 @@ type recLock struct {
 
 var lockOutputs [][]byte
 
+// what the key manager asked the secret lock to wrap: the data keys of the stored keysets. They are secrets as well - a
+// store entry that holds one of them in clear opens that keyset without the master key.
+var (
+	lockMu         sync.Mutex
+	lockPlaintexts [][]byte
+)
+
 func (l *recLock) Encrypt(keyURI string, req *secretlock.EncryptRequest) (*secretlock.EncryptResponse, error) {
 	resp, err := l.Service.Encrypt(keyURI, req)
+	lockMu.Lock()
+	defer lockMu.Unlock()
+	if len(req.Plaintext) >= 16 {
+		// (the key wrapper hands the data key over as base64url text)
+		if raw, e := base64.URLEncoding.DecodeString(req.Plaintext); e == nil && len(raw) >= 16 {
+			lockPlaintexts = append(lockPlaintexts, raw)
+		} else {
+			lockPlaintexts = append(lockPlaintexts, []byte(req.Plaintext))
+		}
+	}
 	if err == nil {
 		if b, e := base64.URLEncoding.DecodeString(resp.Ciphertext); e == nil {
 			lockOutputs = append(lockOutputs, b)
@@ -515,7 +540,7 @@ func kmsRun(input string, c06 bool) string {
 		crash, _ = strconv.Atoi(strings.TrimPrefix(parts[2], "crash="))
 	}
 	rfault := len(parts) == 3 && parts[2] == "rfault=1"
-	lockOutputs = nil
+	lockOutputs, lockPlaintexts = nil, nil
 	kmsImportCounter = 0
 	masterKey := bytes.Repeat([]byte{0x5a}, 32)
 	for i := range masterKey {
@@ -729,8 +754,32 @@ func kmsRun(input string, c06 bool) string {
 		outs = append(outs, o)
 	}
 	if !c06 {
+		// a third of the histories end with several goroutines using the one key manager at the same time (new symmetric
+		// keys, reads of keys that exist): what is written under load is as well wrapped as what is written alone
+		if len(input)%3 == 0 && crash < 0 {
+			var wg sync.WaitGroup
+			for g := 0; g < 6; g++ {
+				wg.Add(1)
+				go func() {
+					defer wg.Done()
+					defer func() { _ = recover() }()
+					for it := 0; it < 3; it++ {
+						if id, _, e := k.Create(kmsapi.AES256GCMType); e == nil {
+							_, _ = k.Get(id)
+						}
+						for _, key := range keys {
+							_, _ = k.Get(key.id)
+						}
+					}
+				}()
+			}
+			wg.Wait()
+		}
 		// C05: collect the secrets through the (still open) key manager, then scan everything written and returned
 		secrets := append([][]byte{}, importedSecrets...)
+		lockMu.Lock()
+		secrets = append(secrets, lockPlaintexts...)
+		lockMu.Unlock()
 		for _, key := range keys {
 			if h, e := k.Get(key.id); e == nil {
 				secrets = append(secrets, kmsSecrets(h)...)
